@@ -258,6 +258,13 @@ def truthyAt (d : Data) (k : String) : Bool :=
   | some v => v.truthy
   | none => false
 
+/-- `state_d.get(k, None) is not None` -/
+def presentAt (d : Data) (k : String) : Bool :=
+  match d.get? k with
+  | some .null => false
+  | some _ => true
+  | none => false
+
 /-- the `if`/`elif` chain choosing the class of the state -/
 def importKind (d : Data) (name : Name) (onEntry onExit : Option Code) : Except IOErr StateDef :=
   match d.get? "type" with
@@ -271,11 +278,11 @@ def importKind (d : Data) (name : Name) (onEntry onExit : Option Code) : Except 
     | .error e => .error e
     | .ok m => .ok { name := name, kind := .deep, onEntry := onEntry, onExit := onExit, memory := m }
   | none | some .null =>
-    if truthyAt d "states" then
+    if presentAt d "states" && !truthyAt d "parallel states" then
       match optNameAt d "initial" with
       | .error e => .error e
       | .ok i => .ok { name := name, kind := .compound, onEntry := onEntry, onExit := onExit, initial := i }
-    else if truthyAt d "parallel states" then
+    else if presentAt d "parallel states" then
       .ok { name := name, kind := .orthogonal, onEntry := onEntry, onExit := onExit }
     else .ok { name := name, kind := .basic, onEntry := onEntry, onExit := onExit }
   | some _ => .error .statechart                     -- unknown type
